@@ -33,6 +33,28 @@ CHECKS = {
          'Trusted: Ed25519 (tmelcrypt) for producing valid signatures with fixed keys; states in epochs 1 and 2 are fabricated at heights 200000/400000. More than 6 stakers and weights other than {1,2,3,2^100} are outside the bound.',
          'DESIGN.md §4 C14'),
 }
+
+E1_NOTE = 'Trusted: the reference model harness/src/refstf.rs (batch rule, settlement orchestration, peg and subsidy formulas transcribed from the statements), melstructs::PoolState arithmetic, novasmt, the state-key abstraction (header hash + tips + proposer action; that the header commits to the whole state is checked by C07). Bounds: the transaction alphabet instantiates each template on the first 1-2 coins per denomination, <= 2-3 transactions per block, depth bound as reported in the evidence; values outside the alphabet are not covered. Hook H3 only reads an unsealed state.'
+def e1(tech, text, ref):
+    return ('E1-state-graph-search', tech, text, E1_NOTE, ref)
+CHECKS.update({
+ 'C01': e1('explicit-state breadth-first search over the real apply_tx_batch / seal / next_unsealed (one transition = one real call) with de-duplication on the header-based state key, up to the depth bound, over alphabets containing every issuance path (faucet, new token, swap, deposit, withdrawal, every pool-name spelling, other kinds carrying pool names, proposer actions); oracle on every transition: per-denomination supply (raw coin tree + pool tree + fee pool + tips) after <= before + issuance allowed by the statement',
+    'Bounded exhaustive exploration of histories of the real state-transition function: every action sequence up to the depth bound over a finite, state-dependent alphabet is executed on the real code, and conservation of every denomination is evaluated on the raw trees of the real state after every accepted batch and every seal. Right level: a conservation violation needs a particular combination of transactions (ordering, pool-name spelling, kind, several requests per block), which small-scope exhaustive search produces and examples do not.',
+    'DESIGN.md §4 C01'),
+ 'C02': e1('explicit-state breadth-first search over the real state-transition function in lock-step with a map-based reference model: all action sequences up to the depth bound over single transactions and ordered batches (dependent pairs in both orders, three-step chains in the worst order, conflicting pairs, repeated transactions, adversarial members); oracle: real accepts => every stated condition holds in the model; on accept the raw coin tree equals the model entry for entry; on reject header and tips are unchanged',
+    'Bounded exhaustive lock-step exploration: every transition calls the real apply_tx_batch and the reference batch rule on the same input; acceptance is compared in the direction the statement gives (necessity), the resulting coin set exactly, and rejected batches must leave the state key unchanged.',
+    'DESIGN.md §4 C02'),
+ 'C15': e1('explicit-state breadth-first search over blocks mixing swap / deposit / withdrawal requests (several per pool, both sides, existing and brand-new pools), every pool-name spelling and every other transaction kind carrying a pool name; oracles at every seal: outputs of non-requests unchanged; coins and pools equal the reference settlement (single price, pro-rata floor, exact reserve movement); deposit shares <= liquidity minted; reserve product non-decreasing',
+    'Bounded exhaustive exploration of blocks and multi-block histories through the real seal, compared with a reference settlement written from the statement plus statement-level invariants evaluated on the real trees.',
+    'DESIGN.md §4 C15'),
+ 'C16': e1('explicit-state breadth-first search over liquidity histories (mint a token, create its pool, deposit twice in a block, swap, withdraw everything) to depth 8 (thorough 11); state invariant after every seal: built-in pools exist with non-zero reserves, sum of liquidity-token coins <= pool.liqs for every pool',
+    'Bounded exhaustive exploration with a state invariant evaluated on the raw coin and pool trees of every sealed state reached.',
+    'DESIGN.md §4 C16'),
+ 'C20': e1('explicit-state breadth-first search over UTXO and pool histories on networks with TIP-906 from genesis and on testnet histories crossing the activation height (root fabricated at 498); state invariant on every open and sealed state: count entry per covenant hash == number of coin entries with that hash, no stray or zero counters, none before activation',
+    'Bounded exhaustive exploration with a state invariant evaluated on the raw coin tree (coins grouped by covenant hash against the count entries) after every open, accepted batch and seal.',
+    'DESIGN.md §4 C20'),
+})
+
 NOT_APPLICABLE = {}
 DEFAULT_NA = 'check not built yet (work in progress; see DESIGN.md appendix B)'
 
